@@ -106,6 +106,25 @@ fn main() {
             println!("closed");
             match handle.join().unwrap() { Ok(()) => println!("result ok"), Err(e) => println!("result err {}", e.to_string().replace('\n', " ")) }
         }
+        "channel-late" => {
+            // a client that calls copy() synchronously and reads the updates only AFTERWARDS: nothing in the API forbids it, the
+            // provided updater must not make copy() wait for a reader
+            let cu = ChannelUpdater::new(&config);
+            let rx = cu.rx_channel();
+            let stats: Arc<dyn StatusUpdater> = Arc::new(cu);
+            let r = drv.copy(paths, &dest, stats);
+            let mut n = 0u64;
+            for u in rx {
+                match u {
+                    StatusUpdate::Copied(v) => println!("{} copied {}", n, v),
+                    StatusUpdate::Size(v) => println!("{} size {}", n, v),
+                    StatusUpdate::Error(e) => println!("{} error {}", n, e.to_string().replace('\n', " ")),
+                }
+                n += 1;
+            }
+            println!("closed");
+            match r { Ok(()) => println!("result ok"), Err(e) => println!("result err {}", e.to_string().replace('\n', " ")) }
+        }
         _ => {
             let stats: Arc<dyn StatusUpdater> = Arc::new(NoopUpdater);
             match drv.copy(paths, &dest, stats) { Ok(()) => println!("result ok"), Err(e) => println!("result err {}", e.to_string().replace('\n', " ")) }
